@@ -220,18 +220,23 @@ def split_spec(x):
     return 0, x
 
 
-def reference_kern(doc):
+def reference_kern(doc, force_same_part=False):
     """doc = {'meter', 'key': [fifths, None], 'nm', 'spines': [{'staff': n|None, 'clef': [sign, line]|None,
     'part': label, 'm': [[ev..] per measure], 'split': {str(mi): [ev..]}}], 'chg', 'kern': style}.
     Spines with the same 'part' label (only produced when the style marks them with the same *part /
     *I interpretation) share a part, every other spine is a part of its own.  The sub-spine opened by
-    '*^' is another voice of the same part and staff.  A barline starts a measure."""
+    '*^' is another voice of the same part and staff.  A barline starts a measure.
+    force_same_part: the reading under load_kern(..., force_same_part=True): the caller asks for ONE part whatever
+    the spines declare; every spine is a voice of it, everything else (onsets, durations, staves, measures,
+    signatures) is what the notation denotes."""
     style = doc.get("kern") or {}
     groups = []
     for si, sp in enumerate(doc["spines"]):
         lab = sp.get("part")
         hit = None
-        if style.get("same_part") and lab is not None:
+        if force_same_part:
+            hit = groups[0] if groups else None
+        elif style.get("same_part") and lab is not None:
             for g in groups:
                 if g[0] == lab:
                     hit = g
